@@ -327,15 +327,40 @@ def defer():
         return
 
     delay = []
-    for t in filter(
-        lambda j: j.get('status') not in [State.running, State.waiting], per
-    ):
-        t.set('status', State.delayed)
-        for p in t.get('period'):
+    now = datetime.datetime.now(datetime.UTC)
+    today = (now.year, now.month, now.day)
+    recurring = False
+    seen = []
+    for t in per:
+        if any(t is s for s in seen):
+            continue  # listed once per event by periodics()
+
+        seen.append(t)
+        busy = any(t is j for j in que)  # pending or executing already
+
+        if not busy:
+            t.set('status', State.delayed)
+
+        fired = t.get('fired')
+        if fired is None:
+            fired = {}
+            t.set('fired', fired)
+        for index, p in enumerate(t.get('period')):
+            recurring |= p.moment.boot is None and p.moment.day is None
             try:
                 ts = _delay(p).total_seconds()
+                due = now + datetime.timedelta(seconds=ts)
+                occurrence = (due.year, due.month, due.day)
 
-                if ts <= 300.0:
+                if 300.0 < ts:
+                    delay.append(ts)
+                elif fired.get(index) == occurrence:
+                    pass  # this occurrence has been served
+                elif busy and p.moment.boot is None:
+                    delay.append(300.0)  # due but still at work: look again
+                elif not busy:
+                    fired[index] = occurrence
+                    busy = True
                     que.append(t)
                     que.sort(key=lambda i: i.get('level'))
                     t.set('status', State.waiting)
@@ -349,12 +374,18 @@ def defer():
                     log.debug(
                         'defer() - moving task %s to the job queue', t.tag
                     )
-                else:
-                    delay.append(ts)
             except _DelayNotKnowableError:
                 pass
             pass
         pass
+
+    if recurring:
+        # an event that is due keeps a delay <= 0 for the rest of its day and
+        # nothing else would wake us up for its next period: look every day
+        tomorrow = datetime.datetime(
+            *today, tzinfo=datetime.UTC
+        ) + datetime.timedelta(days=1, seconds=1)
+        delay.append((tomorrow - now).total_seconds())
 
     if delay:
         wait = min(delay)
